@@ -3,6 +3,16 @@
 HOOK_COMMITS = []   # filled as hook commits are made in /repo
 
 CHECKS = {
+    "C07": dict(
+        category="model_checking",
+        text=("ToolChain.tla: all producer -> transformer* -> consumer chains over formats, precisions and transports with the "
+              "artefact in flight as state (format identifiable from its first bytes, exact rounding bound); each chain is run "
+              "with real processes, files and pipes; plus library round trips and the 15-digit text/npy/text identity."),
+        design_ref="DESIGN.md section 3 (C07)",
+        note=("Chains exhaustive up to the step bound (quick 2, thorough 3) over precisions {0,6,17}; values are a fixed pool, "
+              "not all f64. Trusted: TLC, Q.class, harness parsers for both formats."),
+        technique="TLA+ tool-chain machine, TLC enumeration of chains, execution of every chain against the real binary",
+    ),
     "C15": dict(
         category="model_checking",
         text=("NpyFile.tla: writer layout invariant for every dict length modulo 64 and the exact header bytes; reader decode of "
